@@ -14,9 +14,11 @@ import (
 	"google.golang.org/protobuf/reflect/protodesc"
 	"google.golang.org/protobuf/reflect/protoreflect"
 	"google.golang.org/protobuf/reflect/protoregistry"
+	"google.golang.org/protobuf/types/descriptorpb"
 	"google.golang.org/protobuf/types/dynamicpb"
 	"google.golang.org/protobuf/types/known/anypb"
 	"google.golang.org/protobuf/types/known/durationpb"
+	"google.golang.org/protobuf/types/known/fieldmaskpb"
 	"google.golang.org/protobuf/types/known/structpb"
 	"google.golang.org/protobuf/types/known/timestamppb"
 	"google.golang.org/protobuf/types/known/wrapperspb"
@@ -144,6 +146,12 @@ func engineAnyu(rep *Report) {
 				{TypeUrl: "/no.such.Type", Value: a.Value},
 				{TypeUrl: "/" + tn, Value: append(append([]byte{}, a.Value...), 0xff)}, // corrupt tail
 				{TypeUrl: "/" + tn, Value: []byte{0x0a, 0xff, 0xff, 0xff, 0xff, 0x0f}},
+				{TypeUrl: "/" + tn, Value: []byte{0xc0, 0x3e, 0x80}},                   // unknown varint field, value truncated
+				{TypeUrl: "/" + tn, Value: []byte{0xc1, 0x3e, 1, 2, 3}},                // unknown fixed64 truncated
+				{TypeUrl: "/" + tn, Value: []byte{0xc2, 0x3e, 0x05, 1}},                // unknown bytes truncated
+				{TypeUrl: "/" + tn, Value: []byte{0xc3, 0x3e, 0xc2, 0x3e, 0x7f}},       // unknown group, unterminated
+				{TypeUrl: "/" + tn, Value: []byte{0xc5, 0x3e, 1}},                      // unknown fixed32 truncated
+				{TypeUrl: "/" + tn, Value: append(append([]byte{}, a.Value...), 0x80)}, // dangling tag byte
 				{TypeUrl: "//" + tn, Value: a.Value},
 				{TypeUrl: "/\x00\xff", Value: nil},
 				{TypeUrl: "/google.protobuf.Any", Value: a.Value},
@@ -197,13 +205,21 @@ func engineAnyu(rep *Report) {
 	if si == 0 {
 		anyuFailedPack(rep)
 		anyuWKT(rep)
+		anyuSelfPack(rep)
+		anyuSameNameTwoRegistries(rep)
 	}
 }
 
 // a failed pack leaves the destination untouched
 func anyuFailedPack(rep *Report) {
 	check := func(name string, src proto.Message) {
-		dst := &anypb.Any{TypeUrl: "keep/me", Value: []byte{1, 2, 3}}
+		val := make([]byte, 3, 64) // spare capacity: a pack that reuses the buffer would scribble over it
+		copy(val, []byte{1, 2, 3})
+		spare := val[:64]
+		for i := 3; i < 64; i++ {
+			spare[i] = 0x5a
+		}
+		dst := &anypb.Any{TypeUrl: "keep/me", Value: val}
 		var err error
 		pan, pmsg := safely(func() { err = anyutil.MarshalFrom(dst, src, proto.MarshalOptions{}) })
 		rep.Eval("C16", []byte("failed-pack|"+name), true)
@@ -216,7 +232,7 @@ func anyuFailedPack(rep *Report) {
 			rep.Inconclusive("C16", "expected-marshal-failure-did-not-fail/"+name)
 			return
 		}
-		if dst.TypeUrl != "keep/me" || !bytes.Equal(dst.Value, []byte{1, 2, 3}) {
+		if dst.TypeUrl != "keep/me" || !bytes.Equal(dst.Value, []byte{1, 2, 3}) || !bytes.Equal(spare[3:], bytes.Repeat([]byte{0x5a}, 61)) {
 			rep.Violate("C16", "anyu/failed-pack-modifies-dst", name, fmt.Sprintf("after a failed MarshalFrom dst = {%q, %x}", dst.TypeUrl, dst.Value), nil)
 		}
 		var a *anypb.Any
@@ -228,6 +244,7 @@ func anyuFailedPack(rep *Report) {
 		}
 	}
 	check("nil-source", nil)
+	check("fails-part-way", &fieldmaskpb.FieldMask{Paths: []string{"abcdefgh", "\xff"}})
 	check("invalid-utf8-wrapper", &wrapperspb.StringValue{Value: "\xff\xfe"})
 	check("invalid-utf8-in-struct", &structpb.Struct{Fields: map[string]*structpb.Value{"k": structpb.NewStringValue("\xc3\x28")}})
 	// a generated message whose nested well-known-type field cannot be marshalled
@@ -266,6 +283,84 @@ func anyuWKT(rep *Report) {
 		u2, err := anyutil.Unpack(a, nil, new(protoregistry.Types))
 		if err != nil || !bytes.Equal(canonOf(u2), canonOf(m)) {
 			rep.Violate("C16", "anyu/unpack-files-differs", name, fmt.Sprintf("err=%v", err), nil)
+		}
+	}
+}
+
+// packing an Any into itself / from a source sharing the destination's bytes
+func anyuSelfPack(rep *Report) {
+	inner := &wrapperspb.BytesValue{Value: bytes.Repeat([]byte{7}, 40)}
+	a, err := anyutil.New(inner)
+	if err != nil {
+		rep.Violate("C16", "anyu/pack-fails", "self-pack", err.Error(), nil)
+		return
+	}
+	// shrink: pack something small into the same destination so that Value keeps spare capacity
+	if err := anyutil.MarshalFrom(a, &wrapperspb.BytesValue{Value: []byte{1}}, proto.MarshalOptions{}); err != nil {
+		rep.Violate("C16", "anyu/pack-fails", "self-pack", err.Error(), nil)
+		return
+	}
+	wantVal, _ := proto.MarshalOptions{Deterministic: true}.Marshal(a) // encoding of a as it is now
+	pan, pmsg := safely(func() { err = anyutil.MarshalFrom(a, a, proto.MarshalOptions{Deterministic: true}) })
+	rep.Eval("C16", []byte("self-pack"), true)
+	if pan || err != nil {
+		rep.Violate("C16", "anyu/self-pack-fails", "google.protobuf.Any", fmt.Sprintf("err=%v %s", err, pmsg), nil)
+		return
+	}
+	if a.TypeUrl != "/google.protobuf.Any" || !bytes.Equal(a.Value, wantVal) {
+		rep.Violate("C16", "anyu/value", "google.protobuf.Any", fmt.Sprintf("packing an Any into itself: value %x, want the encoding of the source %x", a.Value, wantVal), nil)
+	}
+	// a source that wraps the destination's own value bytes
+	b, _ := anyutil.New(&wrapperspb.BytesValue{Value: bytes.Repeat([]byte{9}, 50)})
+	_ = anyutil.MarshalFrom(b, &wrapperspb.BytesValue{Value: []byte{1, 2, 3, 4, 5, 6}}, proto.MarshalOptions{})
+	src := &wrapperspb.BytesValue{Value: b.Value}
+	want2, _ := proto.MarshalOptions{Deterministic: true}.Marshal(src)
+	pan, pmsg = safely(func() { err = anyutil.MarshalFrom(b, src, proto.MarshalOptions{Deterministic: true}) })
+	rep.Eval("C16", []byte("aliasing-source"), true)
+	if pan || err != nil {
+		rep.Violate("C16", "anyu/self-pack-fails", "google.protobuf.BytesValue", fmt.Sprintf("err=%v %s", err, pmsg), nil)
+	} else if !bytes.Equal(b.Value, want2) {
+		rep.Violate("C16", "anyu/value", "google.protobuf.BytesValue", fmt.Sprintf("source sharing the destination's bytes: value %x, want %x", b.Value, want2), nil)
+	}
+}
+
+// two custom file registries declaring the same full name with different fields
+func anyuSameNameTwoRegistries(rep *Report) {
+	mk := func(withB bool) *protoregistry.Files {
+		m := &descriptorpb.DescriptorProto{Name: proto.String("X"), Field: []*descriptorpb.FieldDescriptorProto{
+			{Name: proto.String("a"), Number: proto.Int32(1), Type: descriptorpb.FieldDescriptorProto_TYPE_INT32.Enum(), Label: descriptorpb.FieldDescriptorProto_LABEL_OPTIONAL.Enum()}}}
+		if withB {
+			m.Field = append(m.Field, &descriptorpb.FieldDescriptorProto{Name: proto.String("b"), Number: proto.Int32(2), Type: descriptorpb.FieldDescriptorProto_TYPE_STRING.Enum(), Label: descriptorpb.FieldDescriptorProto_LABEL_OPTIONAL.Enum()})
+		}
+		fd, err := protodesc.NewFile(&descriptorpb.FileDescriptorProto{Name: proto.String("vfdyn/x.proto"), Package: proto.String("vf.dyn"), Syntax: proto.String("proto3"), MessageType: []*descriptorpb.DescriptorProto{m}}, nil)
+		if err != nil {
+			panic(err)
+		}
+		fs := new(protoregistry.Files)
+		_ = fs.RegisterFile(fd)
+		return fs
+	}
+	r1, r2 := mk(false), mk(true)
+	val := []byte{0x08, 0x05, 0x12, 0x02, 'h', 'i'}
+	a := &anypb.Any{TypeUrl: "/vf.dyn.X", Value: val}
+	empty := new(protoregistry.Types)
+	for round, fs := range []*protoregistry.Files{r1, r2, r1} {
+		var m proto.Message
+		var err error
+		pan, pmsg := safely(func() { m, err = anyutil.Unpack(a, fs, empty) })
+		rep.Eval("C16", []byte(fmt.Sprintf("same-name-two-registries|%d", round)), true)
+		if pan || err != nil {
+			rep.Violate("C16", "anyu/unpack-customfiles-fails", "vf.dyn.X", fmt.Sprintf("err=%v %s", err, pmsg), nil)
+			continue
+		}
+		nf := m.ProtoReflect().Descriptor().Fields().Len()
+		unk := len(m.ProtoReflect().GetUnknown())
+		wantFields := 1
+		if round == 1 {
+			wantFields = 2
+		}
+		if nf != wantFields || (wantFields == 2 && unk != 0) || (wantFields == 1 && unk == 0) {
+			rep.Violate("C16", "anyu/unpack-customfiles-differs", "vf.dyn.X", fmt.Sprintf("round %d: message built on a descriptor with %d fields (unknown bytes %d); the resolver passed in declares %d fields", round, nf, unk, wantFields), nil)
 		}
 	}
 }
